@@ -46,4 +46,18 @@ def decstreamRequest : Sx → Option String
     | _, _ => none
   | _ => none
 
+/-- `(cwprog (w N) f …)`: the plaintext lengths of the frames a `CryptoWriter` seals for this program
+    (the content of the writes does not matter to the chunking: zeros) -/
+def parseCwOp : Sx → Option CWOp
+  | .atom "f" => some .flush
+  | .list [.atom "w", .atom n] => n.toNat?.map fun k => .write (List.replicate k 0)
+  | _ => none
+
+def cwprogRequest : Sx → Option String
+  | .list (.atom "cwprog" :: ops) =>
+    match ops.mapM parseCwOp with
+    | some prog => some ("(ok (" ++ " ".intercalate ((CW.chunksProg [] prog).map (fun c => toString c.length)) ++ "))")
+    | none => none
+  | _ => none
+
 end Sfv
